@@ -34,11 +34,11 @@ class VirtualClock:
 
     def time(self):
         i = self.n
-        if self.expire is not None:
-            if i >= self.expire:
-                self.t = max(self.t, self.t0 + 1e9)
-        else:
-            self.t += self.steps[i] if i < len(self.steps) else self.tail
+        # the plan's increments always apply (a stopped run replays the reference's clock up to the
+        # expiry); from read `expire` on the deadline has passed
+        self.t += self.steps[i] if i < len(self.steps) else self.tail
+        if self.expire is not None and i >= self.expire:
+            self.t = max(self.t, self.t0 + 1e9)
         self.n += 1
         reader = self._reader()
         self.reads.append((reader, self.t))
